@@ -212,9 +212,12 @@ class CondWrap:
 def make_cond(kind, pre, A, Dy, Dx, via="Sigma"):
     """construct the conditional.  Variants are selected by the presence of extra inputs:
        <pre>Lonly  -> built from the precision only (Lambda=, no Sigma)
+       <pre>Lboth  -> built from Sigma= and Lambda= together
        <pre>S2     -> update_Sigma(<pre>S2) is called after construction (the object then denotes S2)"""
     factor, measure, pdf, conditional = gt()
     cov = {"Lambda": A[pre + "Lonly"]} if (pre + "Lonly") in A else {"Sigma": A[pre + "S"]}
+    if (pre + "Lboth") in A:      # covariance AND a consistent precision supplied (log-determinant left to the constructor)
+        cov = {"Sigma": A[pre + "S"], "Lambda": A[pre + "Lboth"]}
     if kind == "full":
         w = CondWrap(conditional.ConditionalGaussianPDF(M=A[pre + "M"], b=A[pre + "b"], **cov), {})
     elif kind == "diag":
